@@ -18,6 +18,28 @@ from . import core
 from .core import Ctx, log
 
 
+def _raised_inside_implementation(exc):
+    """{'impl_frame','harness_frame'} when the innermost frames of the traceback belong to the
+    alembic package (called from harness code), else None (= a bug of the harness itself)"""
+    try:
+        import alembic
+
+        impl_root = os.path.dirname(os.path.abspath(alembic.__file__)) + os.sep
+    except Exception:
+        return None
+    harness_root = os.path.join(core.VERIF, "harness") + os.sep
+    frames = traceback.extract_tb(exc.__traceback__)
+    last_harness = max([i for i, f in enumerate(frames) if os.path.abspath(f.filename).startswith(harness_root)], default=None)
+    if last_harness is None:
+        return None
+    impl_after = [f for f in frames[last_harness + 1:] if os.path.abspath(f.filename).startswith(impl_root)]
+    if not impl_after:
+        return None
+    hf, imf = frames[last_harness], impl_after[-1]
+    return {"harness_frame": "%s:%d %s" % (os.path.relpath(hf.filename, core.VERIF), hf.lineno, hf.name),
+            "impl_frame": "%s:%d %s" % (imf.filename[len(os.path.dirname(impl_root.rstrip(os.sep))) + 1:], imf.lineno, imf.name)}
+
+
 def main(argv=None):
     ap = argparse.ArgumentParser()
     ap.add_argument("prop")
@@ -72,10 +94,24 @@ def main(argv=None):
     # 2. correspondence + spec on implementation output ------------------------------
     try:
         mod.run(ctx)
-    except Exception:
+    except Exception as e:
         traceback.print_exc()
-        print("infrastructure: harness crashed", flush=True)
-        return 2
+        where = _raised_inside_implementation(e)
+        if where is None:
+            changed = core.changed_anchor_files("_package")
+            if not changed:
+                print("infrastructure: harness crashed", flush=True)
+                return 2
+            # the harness tripped over what the implementation handed back, and the implementation is
+            # not the code the harness was written against
+            fr = traceback.extract_tb(e.__traceback__)[-1]
+            where = {"harness_frame": "%s:%d %s" % (os.path.relpath(fr.filename, core.VERIF), fr.lineno, fr.name),
+                     "impl_frame": "(result of the implementation not of the expected shape; changed modules: %s)" % ", ".join(changed[:6])}
+        # the implementation raised something the harness does not expect from it (on the unchanged
+        # tree this never happens): the correspondence is broken at that call, not the machinery
+        ctx.disagree("implementation-raised", {"call_site": where["harness_frame"]},
+                     {"raised": type(e).__name__, "message": str(e)[:300], "in": where["impl_frame"]}, None,
+                     note="exploration stopped at the first unexpected exception from the implementation")
 
     findings = core.load_findings(prop)
     open_findings = [f for f in findings if f.get("status", "open") == "open"]
